@@ -326,4 +326,33 @@ pub(crate) mod verif_u3 {
         kani::cover!(interval == 3, "interval 3");
         core::mem::forget(ep);
     }
+
+    /// The real constructor orders the endpoint's handles ascending whatever order the caller's (hash-map driven)
+    /// collection delivered them in (C17): the i-th slice of a decoded input packet is attributed to the i-th smallest
+    /// handle, which is the order the sender assembles the bytes in. Three handles, order chosen by the solver.
+    #[kani::proof]
+    #[kani::unwind(8)]
+    #[kani::stub(crate::network::protocol::millis_since_epoch, stub_millis)]
+    #[kani::stub(alloc::fmt::format, stub_format)]
+    fn u_new_orders_handles() {
+        let mut hs = [1usize, 2, 4];
+        if kani::any() {
+            hs.swap(0, 1);
+        }
+        if kani::any() {
+            hs.swap(1, 2);
+        }
+        if kani::any() {
+            hs.swap(0, 1);
+        }
+        let mut v = Vec::with_capacity(3);
+        v.push(hs[0]);
+        v.push(hs[1]);
+        v.push(hs[2]);
+        let ep = mk_ep::<CfgRL>(v, 5, 1, 2, true);
+        let h = ep.handles();
+        assert!(h.len() == 3 && h[0] == 1 && h[1] == 2 && h[2] == 4, "C17: endpoint handles ascending for every registration order");
+        kani::cover!(hs[0] == 4 && hs[2] == 1, "delivered in descending order");
+        core::mem::forget(ep);
+    }
 }
